@@ -129,7 +129,7 @@ namespace
                     runtime.__logmsg(logmessage::runtime::ArraySizeChanged(frame.diag_info_from_position(), m_size, m_array->size()));
                     m_size = m_array->size();
                 }
-                if (++m_index == m_size)
+                if (++m_index >= m_size)
                 {
                     runtime.context_active().push_value(m_count);
                     return result::ok;
@@ -552,7 +552,7 @@ namespace
                     runtime.__logmsg(logmessage::runtime::ArraySizeChanged(frame.diag_info_from_position(), m_size, m_array->size()));
                     m_size = m_array->size();
                 }
-                if (++m_index == m_size)
+                if (++m_index >= m_size)
                 {
                     return result::ok;
                 }
@@ -686,8 +686,8 @@ namespace
                 {
                     if (res->is<t_boolean>())
                     {
-                        if (res->data<d_boolean, bool>())
-                        {
+                        if (res->data<d_boolean, bool>() && m_index < m_array->size())
+                        { // (the code might have removed the very element it was asked about)
                             m_out.push_back(m_array->at(m_index));
                         }
                     }
@@ -710,7 +710,7 @@ namespace
                     runtime.__logmsg(logmessage::runtime::ArraySizeChanged(frame.diag_info_from_position(), m_size, m_array->size()));
                     m_size = m_array->size();
                 }
-                if (++m_index == m_size)
+                if (++m_index >= m_size)
                 {
                     runtime.context_active().push_value(m_out);
                     return result::ok;
@@ -923,7 +923,7 @@ namespace
                     runtime.__logmsg(logmessage::runtime::ArraySizeChanged(frame.diag_info_from_position(), m_size, m_array->size()));
                     m_size = m_array->size();
                 }
-                if (++m_index == m_size)
+                if (++m_index >= m_size)
                 {
                     runtime.context_active().push_value(-1);
                     return result::ok;
@@ -1155,7 +1155,7 @@ namespace
                     runtime.__logmsg(logmessage::runtime::ArraySizeChanged(frame.diag_info_from_position(), m_size, m_array->size()));
                     m_size = m_array->size();
                 }
-                if (++m_index == m_size)
+                if (++m_index >= m_size)
                 {
                     runtime.context_active().push_value(m_out);
                     return result::ok;
